@@ -272,6 +272,7 @@ type c07Obs struct {
 	Name     string
 	OwnKeys  [][]string
 	Panic    string
+	Anc      []c07Obs // one probe record through every ancestor of the logging logger, issued AFTER its call
 }
 
 const c07TagW, c07MinW = 3, 36
@@ -319,8 +320,10 @@ func (c C07Case) emit1() c07Obs {
 	slog.SetMessageMinimalWidth(c07MinW)
 	var o c07Obs
 	var e *slog.Entry
+	var ents []*slog.Entry
 	for i, l := range c.Chain {
 		e = c07Build(e, l)
+		ents = append(ents, e)
 		if i == 0 {
 			e.SetLevel(slog.AlwaysLevel) // admits every severity; children take it over at creation
 		}
@@ -393,7 +396,44 @@ func (c C07Case) emit1() c07Obs {
 		}
 	}
 	events = nil
+	// the ancestors, after the call of their descendant: a record of each still carries exactly what the ancestor
+	// (and, with the flag, ITS ancestors) was given
+	for i := 0; i+1 < len(ents); i++ {
+		a := ents[i]
+		a.SetLevel(slog.AlwaysLevel)
+		switch c.Mode {
+		case "json":
+			a.SetJSONMode(true)
+		case "logfmt":
+			a.SetJSONMode(false)
+			a.SetColorMode(false)
+		default:
+			a.SetJSONMode(false)
+			a.SetColorMode(true)
+		}
+		a.SetWriter(pool[1]).SetErrorWriter(pool[1]).SetUTCMode(true)
+		ao := c07Obs{Name: slog.VerifViewOf(a).Name, OwnKeys: o.OwnKeys[:i+1]}
+		events = nil
+		a.InfoContext(ctx, c07AncMsg, c07Raw(c07AncArgs)...)
+		for _, ev := range events {
+			if ev.Kind == "write" {
+				ao.Payloads = append(ao.Payloads, ev.Payload)
+			}
+		}
+		events = nil
+		o.Anc = append(o.Anc, ao)
+	}
 	return o
+}
+
+const c07AncMsg = "ancestor probe"
+
+var c07AncArgs = []C07Seg{{"pair", []GAttr{{Key: "zzprobe", Val: GVal{Kind: "int", I: 1}}}}}
+
+// the case that ancestor i's probe record is judged as
+func (c C07Case) ancestor(i int) C07Case {
+	return C07Case{Kind: c.Kind, Mode: c.Mode, Inherit: c.Inherit, Chain: c.Chain[:i+1], Ctx: c.Ctx, NilCtx: c.NilCtx,
+		Call: "InfoContext", Msg: c07AncMsg, Args: c07AncArgs, Hist: "none"}
 }
 
 // ---- the statement, in Go ----
@@ -992,6 +1032,16 @@ var c07Shrunk = map[string]int{}
 func c07One(r *Run, c C07Case, toCoq bool, runeSet map[rune]bool) {
 	o := c.emit()
 	key, desc, ts := c07Oracle(c, o)
+	if key == "" {
+		for i, ao := range o.Anc {
+			if k, d, _ := c07Oracle(c.ancestor(i), ao); k != "" {
+				r.Dist["ancestor_probe_failures"]++
+				r.Fail("C07/ancestor-after-descendant-call", fmt.Sprintf("after the call of its descendant, a record of ancestor %d (%s) is wrong: %s: %s", i, c.Chain[i].Name, k, d), c07Replay{c, "", d})
+				break
+			}
+			r.Dist["ancestor_probes"]++
+		}
+	}
 	if key != "" {
 		small := c
 		if c07Shrunk[key] < 3 { // later failures of the same key are only counted
@@ -1515,7 +1565,7 @@ func c07Corpus() []C07Case {
 const c07Header = "Require Import Verif.Model.Base Verif.Model.Mode Verif.Model.Attrs Verif.Model.Collect Verif.Corr.Enc Verif.Corr.C07."
 
 func runC07(r *Run) {
-	r.Rule = "logger chains of depth 1..4 built through New(name) / New(name, attrs...) / New(name, With(...)) / New(name, WithAttrs1(...)) / With / WithAttrs / WithAttrs1 / WithContextKeys, then Set / SetAttrs / SetAttrs1 (own lists of 0..10 attributes incl. nil entries and groups nested <= 2, thorough <= 4), ; histories (a function of the case): half of the cases start on emptied pools (and the attribute-slice size of a new process), half after a small record of the same logger, and in half of the cases the call is issued twice on the same loggers and the SECOND record is the one checked" +
+	r.Rule = "logger chains of depth 1..4 built through New(name) / New(name, attrs...) / New(name, With(...)) / New(name, WithAttrs1(...)) / With / WithAttrs / WithAttrs1 / WithContextKeys, then Set / SetAttrs / SetAttrs1 (own lists of 0..10 attributes incl. nil entries and groups nested <= 2, thorough <= 4), ; histories (a function of the case): half of the cases start on emptied pools (and the attribute-slice size of a new process), half after a small record of the same logger, and in half of the cases the call is issued twice on the same loggers and the SECOND record is the one checked; after the call every ancestor of the logging logger issues a probe record of its own, judged by the same oracle (the descendant's call must not have changed what the ancestor carries)" +
 		"context keys registered by SetContextKeys (one or two calls) / WithContextKeys: string keys, Stringer keys, other key types; context values present, absent, nil, hidden by an inner layer; nil context; calls without context argument; keys registered on ancestors only; " +
 		"call lists of 0..64 attributes (as Attr, []Attr, Attrs, key-value pairs) drawn from a pool of 2..7 keys shared by all sources; inherit flag on/off; json/logfmt/colour; emitted by InfoContext/WarnContext/ErrorContext/DebugContext/LogAttrs/Info/Warn on a logger admitting everything; " +
 		"corpus (refutation witness, Props example, one key on all four sources, 30 attributes on 3 keys, context corner cases, groups) + random cases + collision patterns (see extra.exhaustive_*). " +
